@@ -591,6 +591,9 @@ func genC17(g *G) {
 	}
 	// ---- sizes exactly at the documented limits: a full channel (MaxStreamsPerChannel values) and a report of MaxReportLength bytes
 	for _, n := range []int{llo.MaxStreamsPerChannel - 1, llo.MaxStreamsPerChannel} {
+		if g.Lite() {
+			break
+		}
 		vals := make([]any, n)
 		for k := range vals {
 			vals[k] = svJ(cdcTextSV(g, 0))
@@ -601,6 +604,9 @@ func genC17(g *G) {
 			"json-encode", "json-full-channel")
 	}
 	for _, l := range []int{llo.MaxReportLength, llo.MaxReportLength - 1, llo.MaxReportLength - 150, llo.MaxReportLength - 700, llo.MaxReportLength / 2, 1 << 20} {
+		if g.Lite() && l != 1<<20 {
+			continue
+		}
 		for _, ns := range []int{0, 4, 31} {
 			g.EmitImpl(J{"op": "json.packsized", "len": l, "nsigs": ns, "seed": g.R.Intn(1 << 30)}, "json-pack", "json-pack-at-report-limit")
 		}
